@@ -88,13 +88,17 @@ def docs():
                 rd = dict(sch, default=dflt) if "anyOf" not in sch and "oneOf" not in sch and "allOf" not in sch else sch
                 props = {"rd": rd, "r": sch, "o": sch, "od": rd}
             cname = f"C_{kind}"
-            S[cname] = obj(props, required=["r", "rd"] if "rd" in props else ["r"])
+            # every other class is CLOSED (additionalProperties: false): the decoder of a closed model keeps nothing left over
+            S[cname] = obj(props, required=["r", "rd"] if "rd" in props else ["r"], addl=("absent" if len(S) % 2 else False))
             expect[cname] = {"kind": kind, "nullable": nullable, "sample": sample, "default": dflt if ("rd" in props and props["rd"] is not sch) else None}
             if kind in ("str", "int", "float", "bool", "enumstr", "enumint", "enumstrdup", "uuid", "date") and notation in ("plain", "n31", "anyof", "n30"):
                 for loc in ("query", "header", "cookie"):
                     if loc == "header" and kind in ("date",):
                         continue
-                    params_paths[f"/p/{loc}/{kind}"] = {"get": OPS.op(f"p_{loc}_{kind}", [OPS.P("rq", loc, sch, True), OPS.P("op", loc, sch, False)])}
+                    plist = [OPS.P("rq", loc, sch, True), OPS.P("op", loc, sch, False)]
+                    if dflt is not None and "rd" in props and props["rd"] is not sch:
+                        plist.append(OPS.P("od", loc, props["rd"], False))        # optional WITH a schema default: an explicit UNSET still suppresses it
+                    params_paths[f"/p/{loc}/{kind}"] = {"get": OPS.op(f"p_{loc}_{kind}", plist)}
         d = {"openapi": version, "info": {"title": "t", "version": "1"}, "paths": params_paths, "components": {"schemas": S}}
         out.append((notation + "+literal", d, expect, {"literal_enums": True}) if dup else (notation, d, expect, None))
     return out
@@ -178,6 +182,12 @@ def work(args):
                 meta.append(("call_omit", erec, val, None))
                 ops.append({"op": "call", "module": module, "variant": "sync_detailed", "kwargs": {"rq": OPS.to_marker(val), "op": OPS.to_marker(val)}, "response": {"status": 508}})
                 meta.append(("call_both", erec, val, None))
+                has_od = any(p["py"] == "od" for p in erec["params"])
+                kw = {"rq": OPS.to_marker(val), "op": {"@unset": True}}
+                if has_od:
+                    kw["od"] = {"@unset": True}
+                ops.append({"op": "call", "module": module, "variant": "sync_detailed", "kwargs": kw, "response": {"status": 508}})
+                meta.append(("call_unset", erec, val, None))
                 out["eps"].append(erec)
             res = impl.run_client(g.out, ops, timeout=600) if ops else []
             if isinstance(res, dict):
@@ -308,6 +318,9 @@ def run(run, tier, replay=None):
                 meta.append(("codec", di, rec, t["state"], t))
                 # ---- stage C: the three states on the generated code
                 res = t["res"]
+                if res.get("input_mutated") or res.get("decode_twice_equal") is False:
+                    run.violation("oracle", {"label": r["label"], "doc": r["doc"], "cfg": r.get("cfg"), "cls": rec["cls"], "instance": t["inst"], "impl": res,
+                                             "note": "from_dict consumed / changed the caller's payload: decoding the same payload again reads present and null values back as absent"})
                 if t["state"] == "absent":
                     if "dec_exc" in res or "enc_exc" in res:
                         run.violation("oracle", {"label": r["label"], "doc": r["doc"], "cfg": r.get("cfg"), "cls": rec["cls"], "instance": t["inst"], "impl": res, "note": "instance without the optional property is not accepted"})
@@ -355,21 +368,27 @@ def run(run, tier, replay=None):
                 if sp["name"] == "op" and ((not sp["has_default"]) or (sp["default"] or {}).get("t") != "unset"):
                     run.violation("oracle", {"label": r["label"], "doc": r["doc"], "cfg": r.get("cfg"), "op": erec["op"], "param": sp, "note": "optional parameter does not default to UNSET"})
             loc = erec["params"][0]["loc"] if erec["params"] else None
-            for which in ("call_omit", "call_both"):
+            for which in ("call_omit", "call_both", "call_unset"):
                 call = erec.get(which)
                 if not call:
                     continue
                 if "exc" in call:
+                    if which == "call_unset" and erec.get("call_omit") and "exc" not in erec["call_omit"]:
+                        run.violation("oracle", {"label": r["label"], "doc": r["doc"], "cfg": r.get("cfg"), "op": erec["op"], "impl": call,
+                                                 "note": "passing UNSET for the optional parameters raised although omitting them works: UNSET reached the request"})
+                        continue
                     if loc in ("cookie", "header") and call["exc"]["type"] == "TypeError" and not call.get("requests"):
                         # httpx refuses the raw non-string value: C03's findings cookie_non_string / header_non_string / header_none; nothing is observable here
                         run.extra["parameter_calls_unobservable"] = run.extra.get("parameter_calls_unobservable", 0) + 1
                         continue
-                    run.violation("oracle", {"label": r["label"], "doc": r["doc"], "cfg": r.get("cfg"), "op": erec["op"], "impl": call, "note": "calling with the optional argument %s raised" % ("omitted" if which == "call_omit" else "given")})
+                    run.violation("oracle", {"label": r["label"], "doc": r["doc"], "cfg": r.get("cfg"), "op": erec["op"], "impl": call, "note": "calling with the optional argument %s raised" % {"call_omit": "omitted", "call_both": "given", "call_unset": "explicitly UNSET"}[which]})
                     continue
                 req = (call.get("requests") or [{}])[0]
                 names = {"query": [k for k, _ in req.get("query", [])], "header": [k.lower() for k, _ in req.get("headers", [])],
                          "cookie": [c.split("=")[0].strip() for k, v in req.get("headers", []) if k.lower() == "cookie" for c in v.split(";")]}[loc]
                 present = ("op" in names)
+                if which == "call_unset" and (present or "od" in names):
+                    run.violation("oracle", {"label": r["label"], "doc": r["doc"], "cfg": r.get("cfg"), "op": erec["op"], "request": req, "note": "an optional parameter passed as UNSET was transmitted"})
                 if which == "call_omit" and present:
                     run.violation("oracle", {"label": r["label"], "doc": r["doc"], "cfg": r.get("cfg"), "op": erec["op"], "request": req, "note": "omitted optional parameter was transmitted"})
                 if which == "call_both" and not present:
